@@ -8,7 +8,7 @@ from ..cfg import NORMAL, Node, handler_classes
 from ..core import Ctx
 from ..flow import ALL, find_path, names_in
 from ..model import AnalysisError, FunctionInfo, dotted, norm_text
-from .common import (call_keywords, facts_at, known_null_call, edge_target, handler_exits, handler_nodes, hint_write_nodes, in_handler, is_const, kwarg,
+from .common import (call_keywords, path_arg, facts_at, known_null_call, edge_target, handler_exits, handler_nodes, hint_write_nodes, in_handler, is_const, kwarg,
                      reachable_from)
 
 EXPLANATION = (
@@ -42,6 +42,36 @@ def check(ctx: Ctx) -> None:
     # creator writing it on its own has neither the re-check nor the conditional write
     from .c09 import r1_fresh_names
     r1_fresh_names(ctx, "C18.R12")
+    # recovery's listing is complete (an existing table is never taken for an uninitialised one)
+    from .c20 import r10_listing_exhaustive
+    r10_listing_exhaustive(ctx, "C18.R13")
+    from .c20 import r11_utc_ages
+    r11_utc_ages(ctx, "C18.R14")
+    init_ambiguous_keeps_v0(ctx)
+
+
+def init_ambiguous_keeps_v0(ctx: Ctx, rid: str = "C18.R15") -> None:
+    ctx.rule(rid, "an unknowable outcome of the create-if-absent pointer write keeps the creator's metadata file: in initialize_table "
+             "the initial metadata file is deleted only in a handler that catches exactly CASConflictError (the one outcome that "
+             "means 'not created by me') - after a timeout / 5xx the pointer may name that file", 1)
+    f = ctx.fn(MM + ".initialize_table")
+    g = ctx.cfg(f)
+    sl = ctx.slicer(f)
+    mw = ctx.calls(f, name="_write_metadata_file")
+    if not mw:
+        raise AnalysisError("_write_metadata_file vanished from initialize_table")
+    mpath = names_in(mw[0].ast.args[0]) if isinstance(mw[0].ast, ast.Call) and mw[0].ast.args else set()
+    dels = [n for n in g.calls() if n.id in g.reachable() and ctx.eff.storage_op(n) == "delete_file"
+            and (names_in(path_arg(n)) & mpath or mpath & set(sl.origins(path_arg(n), n.id)["names"]))]
+    for d in dels:
+        hs = [fr.handler for fr in d.frames if fr.kind == "try" and fr.part == "handler" and fr.handler is not None]
+        outer = hs[0] if hs else None
+        cs = handler_classes(outer) if outer is not None else []
+        ok = outer is not None and [c.split(".")[-1] for c in cs] == ["CASConflictError"]
+        ctx.ob(rid, f, "initial metadata file deleted only after a definite create-if-absent conflict", d, ok,
+               f"deleted under except({','.join(cs) or '-'})" + ("" if ok else ": any other failure of the conditional PUT is ambiguous - "
+               "if the store applied it, the pointer now names a deleted file and every later creator loses against it forever"))
+    ctx.ob(rid, f, "cleanup sites of the initial metadata file enumerated", None, len(dels) >= 1, f"{len(dels)} delete site(s)", nontrivial=False)
 
 
 def _check(ctx: Ctx) -> None:
